@@ -478,10 +478,31 @@ func ruleAmbiguitySearchDiscipline(c *Ctx, rule8, rule9 string) {
 	})
 	for _, b := range builders {
 		b := b
+		// the walk enters the helpers on the way (Tree.checkAmbiguous), so a shortcut inside them — a remembered verdict
+		// for the pattern checked last — is a path that reaches the node building without the search
+		isSearchCall := func(t ssa.Instruction) bool {
+			call := an.CallOf(t)
+			if call == nil {
+				return false
+			}
+			callee := an.StaticCallee(call)
+			return callee != nil && an.Origin(callee) == an.Origin(search)
+		}
 		path := (&an.Query{
 			Target: func(t ssa.Instruction) bool { return t == b },
-			Block:  startsSearch,
+			Block:  isSearchCall,
+			Deep:   deepDefault,
+			Descend: func(g *ssa.Function) bool {
+				return an.Origin(g) != an.Origin(search) && strings.HasPrefix(an.FuncKey(g), a.TreePkg.Name()+".")
+			},
 		}).Search(an.Entry(a.TreeAdd))
+		if path == nil {
+			// (coarse form kept as a cross-check: some call on every path reaches the search)
+			path = (&an.Query{
+				Target: func(t ssa.Instruction) bool { return t == b },
+				Block:  startsSearch,
+			}).Search(an.Entry(a.TreeAdd))
+		}
 		o := c.R.Add(rule9, c.fk(a.TreeAdd), "build-nodes/after-ambiguity-search", c.pos(b), path == nil, ifelse(path == nil, "every path to the node-building call ran the ambiguity search", "nodes can be built for a pattern without the ambiguity search having run (a counter, flag or fast path skips it): a pattern identical up to names to a live route is accepted when the shortcut misjudges"))
 		if path != nil {
 			o.Path = c.P.PathString(path)
